@@ -36,6 +36,8 @@ def gen_cases(tier, seed):
             kinds.append(['solid', 'solid', 'liq_static', 'liq_dynamic'][int(rng.integers(4))] if 0 < j < nl - 1 or (j == 0 and nl > 1) else 'solid')
         if nl > 1 and rng.random() < 0.3:
             kinds[0] = str(rng.choice(['liq_static', 'liq_dynamic']))
+        if nl > 1 and rng.random() < 0.2:
+            kinds[-1] = 'liq_static'       # global ocean: a static liquid surface layer (h and l are NaN there, k is compared; a dynamic liquid top crashes - C06 finding)
         dyn = 'liq_dynamic' in kinds
         cases.append({'rel': REL[i % len(REL)], 'kinds': kinds, 'profile': ['const', 'linear'][int(rng.integers(2))], 'l': int(rng.integers(2, 7)),
                       'freq': float(10 ** (rng.uniform(-4, -3) if dyn else rng.uniform(-7, -3))), 'a': float(10 ** rng.uniform(-2, 2)),
@@ -177,15 +179,15 @@ def eval_case(c):
                 return inconclusive('multi-type solve failed: ' + s['message'][:40])
             j = sf.index('tidal')
             cnt['pairs_compared'] += 1
-            if not np.array_equal(s['love'][j].view(float), alone[0].view(float)):
-                e = float(np.max(np.abs(s['love'][j] - alone[0])))
+            if not np.array_equal(s['love'][j].view(float), alone[0].view(float), equal_nan=True):
+                e = float(np.nanmax(np.abs(s['love'][j] - alone[0])))
                 V('R3-type-depends-on-companions', f'tidal Love numbers solved alone {[complex(x) for x in alone[0]]} differ from slot {j} of solve_for={sf}: {[complex(x) for x in s["love"][j]]} (max diff {e:.3e}; must be bit-identical)', sf=list(sf))
         la, _ = conv(base, ('loading',))
         s = run(base, ('tidal', 'loading'))
         if la is not None and s['success']:
             cnt['pairs_compared'] += 1
-            if not np.array_equal(s['love'][1].view(float), la[0].view(float)):
-                V('R3-type-depends-on-companions', f'loading Love numbers alone differ from slot 1 of (tidal, loading) by {float(np.max(np.abs(s["love"][1]-la[0]))):.3e}')
+            if not np.array_equal(s['love'][1].view(float), la[0].view(float), equal_nan=True):
+                V('R3-type-depends-on-companions', f'loading Love numbers alone differ from slot 1 of (tidal, loading) by {float(np.nanmax(np.abs(s["love"][1]-la[0]))):.3e}')
         obs['love'] = [complex(x) for x in alone[0]]
     elif rel == 'R6_reciprocity':
         L, d = conv(base, ('tidal', 'loading'), nd=c.get('nd', True))
